@@ -106,15 +106,16 @@ type World struct {
 	svc   *swap.SwapService
 	tmr   *swap.VerifTimeouts
 
-	obs       []Obs
-	effects   int  // number of effectful calls so far (crash index)
-	crashAt   int  // 0 = never; the effect with this number is the last one that happens
-	dead      bool // set once crashAt is reached
-	faults    map[string][]string
-	idNames   map[string]string
-	secrets   map[string]string // secret value (hex) -> label
-	revealed  map[string]bool   // swap id -> a coop_close with a key has been sent
-	crashNote *Obs
+	obs           []Obs
+	effects       int  // number of effectful calls so far (crash index)
+	crashAt       int  // 0 = never; the effect with this number is the last one that happens
+	dead          bool // set once crashAt is reached
+	faults        map[string][]string
+	idNames       map[string]string
+	secrets       map[string]string // secret value (hex) -> label
+	revealed      map[string]bool   // swap id -> a coop_close with a key has been sent
+	crashNote     *Obs
+	btcOn, lbtcOn bool
 }
 
 type WorldCfg struct {
@@ -189,10 +190,8 @@ func (w *World) openDB() {
 	w.ps = ps
 }
 
-var btcEnabledCfg, lbtcEnabledCfg = true, true
-
 func (w *World) boot(btc, lbtc bool) {
-	btcEnabledCfg, lbtcEnabledCfg = btc, lbtc
+	w.btcOn, w.lbtcOn = btc, lbtc
 	services := swap.NewSwapServices(w.store, w.rs, w.ln, w.msgr, w.mgr, w.pol,
 		btc, w.btc, w.btc, w.btc, lbtc, w.lbtc, w.lbtc, w.lbtc, w.ps)
 	w.svc = swap.NewSwapService(services)
@@ -215,7 +214,7 @@ func (w *World) restart() {
 	w.lbtc.confWatch, w.lbtc.csvWatch = nil, nil
 	w.ln.notifiers = map[string]bool{}
 	w.note(Obs{Kind: "restart"})
-	w.boot(btcEnabledCfg, lbtcEnabledCfg)
+	w.boot(w.btcOn, w.lbtcOn)
 	if err := w.svc.RecoverSwaps(); err != nil {
 		w.note(Obs{Kind: "recover-error", A: map[string]string{"err": err.Error()}})
 	}
